@@ -155,6 +155,8 @@ def proof_gate(prop, theorems, extra_modules=(), thorough=False):
             for x in mm.group(1).split():
                 if x not in mods:
                     mods.append(x)
+        for mm in re.finditer(r"From\s+Coq\s+Require\s+(?:Import|Export)\s+(.*?)\.(?=\s|$)", ptxt, re.S):
+            f.write("From Coq Require Import %s.\n" % " ".join(mm.group(1).split()))      # standard-library vocabulary (Sorted, ...)
         for m in mods:
             f.write("From N2 Require Import %s.\n" % m)
         for name, stmt in theorems:
